@@ -108,7 +108,11 @@ func (p *RunnableProcessor) Process(ctx context.Context, records []opencdc.Recor
 				}
 			}
 		}
-		if err != nil {
+		if err != nil && len(outRecs) == len(keptRecords) {
+			// The error belongs to the record whose condition failed. That is
+			// the next free slot only if the processor returned a result for
+			// every kept record; after a short result the caller retries the
+			// remaining records and the condition is evaluated again.
 			outRecs = append(outRecs, sdk.ErrorRecord{Error: err})
 		}
 
@@ -121,20 +125,28 @@ func (p *RunnableProcessor) Process(ctx context.Context, records []opencdc.Recor
 				outRecs[i] = sdk.SingleRecord(rec)
 			}
 		} else if len(passthroughRecordIndexes) > 0 {
-			tmp := make([]sdk.ProcessedRecord, len(outRecs)+len(passthroughRecordIndexes))
-			prevIndex := -1
-			for i, index := range passthroughRecordIndexes {
-				// TODO index-i can be out of bounds if the processor returns
-				//  fewer records than the input.
-				copy(tmp[prevIndex+1:index], outRecs[prevIndex-i+1:index-i])
-				tmp[index] = sdk.SingleRecord(records[index])
-				prevIndex = index
+			// Walk the input once and keep every result at the index of its
+			// record. If the processor returned fewer records than it was
+			// given (or evaluating the condition stopped early), the merged
+			// result ends right before the first record without a result, so
+			// the caller sees a short result exactly as it would without a
+			// condition.
+			merged := make([]sdk.ProcessedRecord, 0, len(outRecs)+len(passthroughRecordIndexes))
+			next := 0 // next unused element of outRecs
+			pass := passthroughRecordIndexes
+			for i := range records {
+				if len(pass) > 0 && pass[0] == i {
+					merged = append(merged, sdk.SingleRecord(records[i]))
+					pass = pass[1:]
+					continue
+				}
+				if next == len(outRecs) {
+					break
+				}
+				merged = append(merged, outRecs[next])
+				next++
 			}
-			// if the last index is not the last record, copy the rest
-			if passthroughRecordIndexes[len(passthroughRecordIndexes)-1] != len(tmp)-1 {
-				copy(tmp[prevIndex+1:], outRecs[prevIndex-len(passthroughRecordIndexes)+1:])
-			}
-			outRecs = tmp
+			outRecs = merged
 		}
 	}
 
